@@ -1,7 +1,9 @@
 """C18 CrossHair harnesses: element nesting, XHTML stream, RLE index entries - output parsed back by expat."""
 import io
 import logging
+import os
 logging.disable(logging.CRITICAL)
+PART = int(os.environ.get('VERIF_PART', '-1'))
 import xml.etree.ElementTree as ET
 from engine import mark
 from TotalDepth.util import XmlWrite
@@ -194,4 +196,71 @@ def _rle_entries(n, x0, x1, x2, x3, hexa):
         d, s, r = int(item.get('datum'), 0), int(item.get('stride'), 0), int(item.get('repeat'))
         for i in range(r + 1):
             out.append(d + i * s)
+    return out == seq
+
+
+# ---------------------------------------------------------------------------------------------------- float run-length entries (the <Xaxis> element)
+
+FBASE = [0.1, 1000.0, 1.6e12, -805.2105103]
+FSTRIDE = [0.1, 0.0025399999999535794, 1000.0, -0.5]
+
+
+def _jit(v, stride, j):
+    """j: 0 exact continuation, 1 one unit in the last place off, 2 relative 1e-10 off, 3 relative 1e-7 off, 4 a quarter stride off."""
+    import sys
+    if j == 1:
+        return v * (1.0 + sys.float_info.epsilon)
+    if j == 2:
+        return v * (1.0 + 1e-10)
+    if j == 3:
+        return v * (1.0 - 1e-7)
+    if j == 4:
+        return v + stride * 0.25
+    return v
+
+
+def rle_float_entries(n: int, b: int, st: int, j2: int, j3: int, j4: int) -> bool:
+    """
+    pre: 2 <= n <= 5 and 0 <= b <= 3 and 0 <= st <= 3
+    pre: 0 <= j2 <= 4 and 0 <= j3 <= 4 and 0 <= j4 <= 4
+    pre: (n >= 3 or j2 == 0) and (n >= 4 or j3 == 0) and (n >= 5 or j4 == 0)
+    pre: PART < 0 or b * 4 + st == PART
+    post: _
+    """
+    n, b, st = mark.pick(n, 2, 5), mark.pick(b, 0, 3), mark.pick(st, 0, 3)
+    j2 = mark.pick(j2, 0, 4) if n >= 3 else 0
+    j3 = mark.pick(j3, 0, 4) if n >= 4 else 0
+    j4 = mark.pick(j4, 0, 4) if n >= 5 else 0
+    with mark.untraced():
+        return _rle_float_entries(n, b, st, j2, j3, j4)
+
+
+def _rle_float_entries(n, b, st, j2, j3, j4):
+    import os
+    import sys
+    from TotalDepth.RP66V1 import IndexXML
+    base, stride = FBASE[b], FSTRIDE[st]
+    seq = [base, base + stride]
+    for i, j in zip(range(2, n), (j2, j3, j4)):
+        seq.append(_jit(base + i * stride, stride, j))
+    rle = Rle.create_rle(seq)
+    f = io.StringIO()
+    with XmlWrite.XmlStream(f) as xs:
+        IndexXML.xml_rle_write(rle, 'Xaxis', xs, False)
+    mark.hit()
+    root = ET.fromstring(f.getvalue().split('?>', 1)[1])
+    if root.tag != 'Xaxis' or int(root.get('count')) != len(seq) or int(root.get('rle_len')) != len(root):
+        return False
+    out = []
+    for item in root:
+        d, s, r = float(item.get('datum')), float(item.get('stride')), int(item.get('repeat'))
+        for i in range(r + 1):
+            out.append(d + i * s)
+    if len(out) != len(seq):
+        return False
+    if 'rle_float_run_within_one_ulp' in os.environ.get('VERIF_EXCLUDE', ''):
+        # known finding: a value within one unit in the last place of the extrapolated one is absorbed into the run.  The oracle then allows
+        # exactly that much and nothing more.
+        eps = sys.float_info.epsilon
+        return all(abs(a - e) <= eps * max(abs(a), abs(e)) for a, e in zip(out, seq))
     return out == seq
